@@ -196,6 +196,14 @@ class AlgebraProfile(StoreProfile):
             if not al:
                 return None
             a = rng.choice(al)
+            # an earlier segment that CONTAINS the text of an alias ('lighthouse' holds 'hou') stays literal, with that alias
+            hits = [x for x in al if any(x in seg for seg in segs[:-1])]
+            if hits and rng.random() < 0.8:
+                a = rng.choice(hits)
+                for jj in range(n - 1):
+                    if a in segs[jj]:
+                        host[jj] = segs[jj]
+                run.probes["alias_text_inside_an_earlier_segment"] += 1
             members = sorted(set(m.alias[a]))
             if rule == "alias":
                 h = host[:-1]
